@@ -25,4 +25,4 @@ const (
 const caseImports = "From FRP Require Import Corr.C05.\nImport TlsPolicy Wire.\n"
 
 const caseTail = "Definition M := Eval vm_compute in mismatches check_case cases.\nPrint M.\n" +
-	"Definition V := Eval vm_compute in mismatches (fun c => if C05_holds c then 0 else 99) cases.\nPrint V.\n"
+	"Definition NMONITORFAIL := Eval vm_compute in count_if (fun c => negb (C05_holds c)) cases.\nPrint NMONITORFAIL.\n"
